@@ -16,7 +16,7 @@ PUMPS = [{'power': 0.224403, 'frequency': 205e12, 'propagation_direction': 'coun
 CHAINS = [
     'F80', 'F0.05', 'F10', 'F120', 'F200', 'F460', 'F1500', 'F80_F60', 'F40_U_F30', 'U_F60', 'F60_U', 'F30_U_U_F20',
     'E_F80', 'F80_E', 'F80_E_F70', 'Efull_F100_Efull', 'Etype_F100_Egain', 'Evoa_F90_Edp', 'F100lumped', 'F200lumped',
-    'F200lumped_unsorted', 'F460lumped3', 'F200att', 'F80perfreq', 'R80_E', 'F80_R80', 'R30_U_F10', 'F100_F100_F100', 'Evoa_F100', 'Evoa_F70_F70', 'F80_Evoa', 'F80conin', 'F80conout',
+    'F200lumped_unsorted', 'F460lumped3', 'F200att', 'F20att', 'F80perfreq', 'R80_E', 'F80_R80', 'R30_U_F10', 'F100_F100_F100', 'Evoa_F100', 'Evoa_F70_F70', 'F80_Evoa', 'F80conin', 'F80conout',
 ]
 
 
@@ -50,6 +50,8 @@ def chain(kind, amp_low='std_low_gain', amp_med='std_medium_gain'):
         'F460lumped3': [f(460, lumped_losses=[{'position': 300, 'loss': 0.4}, {'position': 20, 'loss': 1.0},
                                               {'position': 200, 'loss': 0.7}])],
         'F200att': [f(200, att_in=2.0)],
+        # a short fibre with an operator pad that is still below the padding loss: design completes the pad
+        'F20att': [f(20, att_in=2.0)],
         'F80perfreq': [f(80, loss={'value': [0.22, 0.2, 0.21], 'frequency': [186e12, 193.4e12, 198e12]})],
         'R80_E': [raman_fiber(80), e()],
         'F80_R80': [f(80), raman_fiber(80)],
